@@ -290,4 +290,20 @@ theorem replace_starts_nothing (tm : TM) (n : Nat) (s : Spec) :
 example : (({ } : TM).run [.reg 1 { kind := .long, stub := 2 }, .pass, .replace 1 { kind := .imm }, .tick, .tick, .tick]).log
     = [.fin 1, .run 1, .start 1 (some 0), .fin 0, .run 0] := by decide
 
+
+/-! ## 5. The service: discovery strategies -/
+
+/-- **no_strategy_after_unload_overlay** — for every service state (any number of overlays, any number and order of
+    strategies per overlay, consecutive or interleaved), after `unload_overlay(o)` and ANY later sequence of
+    `add_strategy` / `unload_overlay` calls for other overlays, no strategy that drives `o` is among those a tick can
+    step, and the service no longer lists `o`. -/
+theorem no_strategy_after_unload_overlay (s : Svc) (o : Nat) (ops : List SOp) (hops : ∀ op ∈ ops, SvcForeign o op) :
+    (∀ e ∈ ((s.unloadOverlay o).run ops).stepped, e.2 ≠ o) ∧ o ∉ ((s.unloadOverlay o).run ops).overlays :=
+  svcClean_run ops _ hops (svcClean_unload s o)
+
+/-- non-vacuity: three consecutive strategies of overlay 1 between strategies of overlay 2 (the shape of the default
+    configuration) — all three are gone, the others stay -/
+example : (((({ } : Svc).run [.add 2 10, .add 1 11, .add 1 12, .add 1 13, .add 2 14]).unloadOverlay 1).run [.add 3 15]).stepped
+    = [(10, 2), (14, 2), (15, 3)] := by decide
+
 end Ipv8.C11
